@@ -993,6 +993,10 @@ class Folder:
             if m in ("eq", "ne", "gt", "lt", "ge", "le") and len(node.args) == 1 and not node.keywords:
                 op_ = {"eq": ast.Eq, "ne": ast.NotEq, "gt": ast.Gt, "lt": ast.Lt, "ge": ast.GtE, "le": ast.LtE}[m]()
                 return self.fold(ast.Compare(left=node.func.value, ops=[op_], comparators=[node.args[0]]))
+            if m in ("logical_and", "logical_or", "logical_xor") and len(node.args) == 1 and not node.keywords:
+                return self.fold(ast.Call(func=ast.Attribute(value=ast.Name(id="torch", ctx=ast.Load()), attr=m, ctx=ast.Load()), args=[node.func.value, node.args[0]], keywords=[]))
+            if m == "logical_not" and not node.args and not node.keywords:
+                return self.fold(ast.Call(func=ast.Attribute(value=ast.Name(id="torch", ctx=ast.Load()), attr=m, ctx=ast.Load()), args=[node.func.value], keywords=[]))
             if m == "masked_fill" and len(node.args) == 2 and not node.keywords:
                 v = self.fold(node.func.value)
                 mk_, val_ = self.fold(node.args[0]), self.fold(node.args[1])
@@ -1525,6 +1529,19 @@ class Folder:
             if short in ("eq", "ne", "gt", "lt", "ge", "le") and nm.startswith("torch.") and len(node.args) == 2 and not node.keywords:
                 op_ = {"eq": ast.Eq, "ne": ast.NotEq, "gt": ast.Gt, "lt": ast.Lt, "ge": ast.GtE, "le": ast.LtE}[short]()
                 return self.fold(ast.Compare(left=node.args[0], ops=[op_], comparators=[node.args[1]]))
+            if short in ("logical_and", "logical_or", "logical_xor") and nm.startswith("torch.") and len(node.args) == 2 and not node.keywords:
+                a_, b_ = self.fold(node.args[0]), self.fold(node.args[1])
+                if isinstance(a_, PySeq) or isinstance(b_, PySeq):
+                    raise Unfoldable(f"{short} of python sequences")
+                fn_ = {"logical_and": lambda x, y: int(bool(x) and bool(y)), "logical_or": lambda x, y: int(bool(x) or bool(y)), "logical_xor": lambda x, y: int(bool(x) != bool(y))}[short]
+                r_ = _ew(fn_, a_, b_)
+                return _mask(r_) if isinstance(r_, list) else bool(r_)
+            if short == "logical_not" and nm.startswith("torch.") and len(node.args) == 1 and not node.keywords:
+                a_ = self.fold(node.args[0])
+                if isinstance(a_, PySeq):
+                    raise Unfoldable("logical_not of a python sequence")
+                r_ = _ew(lambda x: int(not bool(x)), a_)
+                return _mask(r_) if isinstance(r_, list) else bool(r_)
             if short == "is_complex" and nm == "torch.is_complex" and len(node.args) == 1 and not node.keywords:
                 return self.fold(ast.Call(func=ast.Attribute(value=node.args[0], attr="is_complex", ctx=ast.Load()), args=[], keywords=[]))
             if short == "equal" and nm == "torch.equal" and len(node.args) == 2 and not node.keywords:
